@@ -50,6 +50,11 @@ def c05 (op : String) (j : Json) : Option (R Json) :=
       let vd ← optStrsOfJson j "vdims"
       let mp ← optPairs j "vmap"
       pure (resJ metaJ (mkFld mesh nvdim (NDA.const mesh.n []) (NDA.const mesh.n true) vd mp none))
+  | "rot90" => some do
+      let f ← fldOfJson (← fld j "field")
+      let da ← strOfJson (← fld j "a")
+      let db ← strOfJson (← fld j "b")
+      pure (resJ fldToJson (rot90Fld f da db))
   | "rdim" => some do
       let f ← fldOfJson (← fld j "field")
       pure (Json.mkObj [("ok", listJ (fun d => optStrJ (rDimLast f d)) f.mesh.region.dims)])
